@@ -216,6 +216,21 @@ def external_call(E, st, fr, n, rt, a):
     if n == 'memset': memset(E, st, a[0], a[1], a[2]); return a[0]
     if n == 'memcmp': return memcmp(E, st, a[0], a[1], a[2])
     if n == 'bcmp': return memcmp(E, st, a[0], a[1], a[2])
+    if n == 'strlen':
+        p_ = need_int(a[0]); k = 0
+        while True:
+            c = E.load_bytes(st, p_ + k, 1)
+            if type(c) is not int: c = need_int(c)
+            if c == 0: return k
+            k += 1
+            if k > (1 << 20): raise Inconclusive('strlen without terminator')
+    if n == 'memchr':
+        p_ = need_int(a[0]); ch = need_int(a[1]) & 255; ln = need_int(a[2])
+        for k in range(ln):
+            c = E.load_bytes(st, p_ + k, 1)
+            if type(c) is not int: c = need_int(c)
+            if c == ch: return p_ + k
+        return 0
     if n == '__assert_fail':
         raise Violation('assert', 'sonic_assert failed: %s (%s:%s)' % (cstring(E, st, a[0]), cstring(E, st, a[1]).split('/')[-1], a[2]))
     if n in ('abort', 'exit', '_exit', '__cxa_pure_virtual', '_ZSt9terminatev'):
@@ -522,12 +537,14 @@ def verif_api(E, st, fr, n, a):
         return need_int(a[0])
     if n == 'verif_is_replay': return 0
     if n == 'verif_alloc_page_end':
-        sz = need_int(a[0]); dist = need_int(a[1])
-        # object whose last byte is `dist` bytes before the end of a page; next page unmapped
+        sz = need_int(a[0]); dist = need_int(a[1]); slack = need_int(a[2])
+        # block of sz bytes whose last byte is `dist` bytes before the end of a mapped page, followed by `slack` readable
+        # foreign bytes (never written => unconstrained) and then unmapped memory
+        if slack > dist: slack = dist
         page = (st.heap_next + 3 * 4096) // 4096 * 4096
         st.heap_next = page + 2 * 4096
         base = page + 4096 - dist - sz
-        E.alloc_at(st, base, sz, 'page_end(%d,-%d)' % (sz, dist))
+        E.alloc_at(st, base, sz + slack, 'page_end(len=%d,dist=%d,slack=%d)' % (sz, dist, slack))
         return base
     if n == 'verif_map_slack':
         # declare `k` readable-but-foreign bytes right after the block that ends at address a[0] (rest of a mapped page)
@@ -539,6 +556,25 @@ def verif_api(E, st, fr, n, a):
         if type(x) is int: return 0
         from llsym import z3vars
         return int(any(k.startswith('undef!') for k in z3vars(x)))
+    if n == 'verif_check_independent_mem':
+        # every byte of p[0..len) must not depend on never-written memory
+        from llsym import z3vars
+        p_ = need_int(a[0]); ln = need_int(a[1])
+        xs = [E.load_bytes(st, p_ + i, 1) for i in range(ln)]
+        xs = [x for x in xs if type(x) is not int]
+        dep = [x for x in xs if any(k.startswith('undef!') for k in z3vars(x))]
+        if dep:
+            allu = {}
+            for e in st.pc + dep:
+                for k, v in z3vars(e).items():
+                    if k.startswith('undef!'): allu[k] = v
+            sub = [(v, z3.BitVec(k + "'", 8)) for k, v in allu.items()]
+            pc2 = [z3.substitute(e, *sub) for e in st.pc]
+            diff = z3.Or(*[x != z3.substitute(x, *sub) for x in dep])
+            if E.sat(st.pc + pc2, diff):
+                st.model = E.last_model
+                raise Violation('uninit', cstring(E, st, a[2]) + ': result depends on bytes outside the input')
+        return None
     if n == 'verif_check_independent':
         # a value that must not depend on never-written memory
         x = a[0]
